@@ -125,3 +125,97 @@ def debug_variant(prop, name):
             return 0
     print('no such variant')
     return 2
+
+
+# ---------------------------------------------------------------------------------------------------
+# neutral stress: generic behaviour-preserving edits of every function the rules anchor in
+
+def _local_names(fn):
+    import ast
+    a = fn.args
+    params = set(x.arg for x in a.args + a.kwonlyargs)
+    if a.vararg:
+        params.add(a.vararg.arg)
+    if a.kwarg:
+        params.add(a.kwarg.arg)
+    names = []
+    for n in ast.walk(fn):
+        if isinstance(n, ast.Name) and isinstance(n.ctx, ast.Store) and n.id not in params and n.id not in names and not n.id.startswith('__'):
+            names.append(n.id)
+    for n in ast.walk(fn):
+        if isinstance(n, (ast.Global, ast.Nonlocal)):
+            names = [x for x in names if x not in n.names]
+    return names
+
+
+def _swap_eq(fn):
+    import ast
+    n = 0
+    for c in ast.walk(fn):
+        if isinstance(c, ast.Compare) and len(c.ops) == 1 and isinstance(c.ops[0], (ast.Eq, ast.NotEq)):
+            c.left, c.comparators[0] = c.comparators[0], c.left
+            n += 1
+    return n > 0
+
+
+def stress_variants(specs, base):
+    import ast
+    from . import mutate as mu
+    out = []
+    for spec in specs:
+        path, dotted = spec.split(':')
+        try:
+            fn = base.locate(spec)
+        except Exception:
+            continue
+        if not isinstance(fn, ast.FunctionDef):
+            continue
+        for name in _local_names(fn):
+            out.append(mu.Variant('%s rename:%s' % (spec, name), 'neutral', path,
+                                  (lambda d, o: (lambda tree: mu.rename_local(mu.find_def(tree, d), o, o + '_rn')))(dotted, name)))
+        if any(isinstance(c, ast.Compare) and len(c.ops) == 1 and isinstance(c.ops[0], (ast.Eq, ast.NotEq)) for c in ast.walk(fn)):
+            out.append(mu.Variant('%s swap-eq-operands' % spec, 'neutral', path, (lambda d: (lambda tree: _swap_eq(mu.find_def(tree, d))))(dotted)))
+        out.append(mu.Variant('%s noop-first' % spec, 'neutral', path,
+                              (lambda d: (lambda tree: mu.insert_first(mu.find_def(tree, d), "'no operation'")))(dotted)))
+    return out
+
+
+def stress(prop, mod, rep, jobs=None):
+    """Run the rules on every generic neutral variant of every anchored function; returns a summary dict."""
+    base = SourceIndex()
+    ctx = Ctx(base, 'quick')
+    seen = []
+    orig = ctx.fn
+
+    def rec(spec):
+        n = orig(spec)
+        if spec not in seen:
+            seen.append(spec)
+        return n
+    ctx.fn = rec
+    probe = Report(prop, 'quick')
+    try:
+        mod.check(ctx, probe)
+    except AnalysisError as e:
+        probe.error(str(e))
+    base_keys = [(f.rule, f.construct) for f in probe.findings]
+    variants = stress_variants(seen, base)
+    _BASE['idx'] = base
+    _BASE['variants'] = variants
+    results = []
+    if variants:
+        jobs = jobs or min(16, len(variants), os.cpu_count() or 1)
+        ctxmp = multiprocessing.get_context('fork')
+        with ctxmp.Pool(jobs) as pool:
+            results = pool.map(_run_one, [(prop, i) for i in range(len(variants))], chunksize=4)
+    alarms = []
+    skipped = 0
+    for i, keys, errors, exc in results:
+        if exc and 'changed nothing' in exc:
+            skipped += 1
+            continue
+        new = [k for k in keys if k not in base_keys]
+        newerr = [e for e in errors if e not in probe.errors]
+        if new or newerr or exc:
+            alarms.append('%s -> %s' % (variants[i].name, (new or newerr or [exc])[0]))
+    return dict(anchored_functions=len(seen), variants=len(variants) - skipped, alarms=alarms)
